@@ -63,7 +63,9 @@ Inductive okind :=
 | KImportKey (kn : N)                (* Add(Key, ...): import under the explicit key id kn *)
 | KAddIn (c : cid) (v : N) (col : cid)   (* Add with AddByCollection *)
 | KGetAllIn (ct : N) (col : cid)     (* GetAll with FilterByCollection *)
-| KUse (m : meth) (c : cid) (kn : N). (* method m on stored credential c / with signing key kn *)
+| KUse (m : meth) (c : cid) (kn : N)  (* method m on stored credential c / with signing key kn *)
+| KAddKeyEmpty.                      (* Add(Key, ...) with a key content that carries NO private key material: nothing
+                                        is imported *)
 
 Inductive wop :=
 | WCreate (u : user)                         (* wallet.CreateProfile *)
@@ -316,6 +318,14 @@ Definition step (v : variant) (st : wstate) (o : wop) : wstate * wout :=
                    | None => st
                    end,
                    use_op st u m c kn (match fs with Some s => Some (s_user s) | None => None end))
+              end
+          | KAddKeyEmpty =>
+              (* Add(Key) -> saveKey with neither privateKeyJwk nor privateKeyBase58: no importer runs.  As found, no
+                 session was looked up at all (any string "succeeded", on a locked instance too); repaired (fix:
+                 saveKey looks the session up first): a missing session is reported as ErrWalletLocked *)
+              match v with
+              | AsIs => (st, RDone)
+              | Fixed => match fs with None => (st, RLocked) | Some _ => (st1, RDone) end
               end
           | _ =>
               if negb hopen then (st, RLocked) else                  (* storeLocked handle *)
